@@ -50,16 +50,15 @@ _INS_REQ = [("inv", "inv_cuckoo(self)"), ("not_stored_yet", f"tcount({BK}, {CAP}
 
 contract("CuckooFilter._insert_fingerprint", contexts=["CuckooFilter"], properties=["C03", "C15", "C14"],
          params={"fingerprint": "int", "idx_1": "int", "idx_2": "int"}, returns="opt[int]",
-         let=[("fp0", "fingerprint")],
+         let=[("fp0", "fingerprint")], locals={"undo": "list[tuple[int,int]]"},
          requires=_INS_REQ,
          modifies=[BK, "self._inserted_elements"],
          ensures=[("inv_shape", "ck_shape(self)"), ("inv_placed", "ck_placed(self)"), ("inv_nodup", f"nodup({BK}, {CAP})"),
                   ("inv_counter", f"self._inserted_elements == tsize({BK}, {CAP})"),
                   ("stored", f"implies(result is None, all({_TC} == old({_TC}) + (1 if f == fp0 else 0) for f in allkeys()))"),
-                  ("nothing_lost_but_the_left_over",
-                   f"implies(result is not None, all({_TC} + (1 if f == result else 0) == old({_TC}) + (1 if f == fp0 else 0) "
-                   "for f in allkeys()))"),
-                  ("left_over_is_not_stored", f"implies(result is not None, tcount({BK}, {CAP}, result) == 0)"),
+                  ("failed_insert_hands_back_the_new_fingerprint", "implies(result is not None, result == fp0)"),
+                  ("failed_insert_leaves_the_table_as_it_was",
+                   f"implies(result is not None, same({BK}, old({BK})) and self._inserted_elements == old(self._inserted_elements))"),
                   ("capacity_kept", f"{CAP} == old({CAP})")],
          loops={0: {"invariant": [
              ("shape", "ck_shape(self)"), ("placed", "ck_placed(self)"), ("nodup", f"nodup({BK}, {CAP})"),
@@ -67,4 +66,121 @@ contract("CuckooFilter._insert_fingerprint", contexts=["CuckooFilter"], properti
              ("in_hand_not_stored", f"tcount({BK}, {CAP}, fingerprint) == 0"),
              ("current_bucket_is_a_candidate", f"0 <= idx < {CAP} and (idx == fingerprint % {CAP} or idx == ck_alt(self, fingerprint))"),
              ("current_bucket_full", f"len({BK}[idx]) == self._bucket_size"),
-             ("counter", f"self._inserted_elements == tsize({BK}, {CAP}) and self._inserted_elements == old(self._inserted_elements)")]}})
+             ("counter", f"self._inserted_elements == tsize({BK}, {CAP}) and self._inserted_elements == old(self._inserted_elements)"),
+             ("undoing_the_recorded_swaps_restores_the_table",
+              f"same(undone_table({BK}, fingerprint, undo, len(undo)), old({BK})) and "
+              f"undone_hand({BK}, fingerprint, undo, len(undo)) == fp0"),
+             ("recorded_swaps_are_slots", f"all(0 <= undo[q][0] < {CAP} and 0 <= undo[q][1] < self._bucket_size "
+                                          f"and undo[q][1] < old(len({BK}[undo[q][0]])) for q in range(0, len(undo)))"),
+             ("lengths_kept", f"all(len({BK}[b]) == old(len({BK}[b])) for b in range(0, {CAP}))")]},
+                1: {"invariant": [
+             ("rest_of_the_undo_restores_the_table",
+              f"same(undone_table({BK}, fingerprint, undo, len(undo) - _i), old({BK})) and "
+              f"undone_hand({BK}, fingerprint, undo, len(undo) - _i) == fp0"),
+             ("table_length_kept", f"len({BK}) == {CAP}"),
+             ("lengths_kept", f"all(len({BK}[b]) == old(len({BK}[b])) for b in range(0, {CAP}))"),
+             ("counter_kept", "self._inserted_elements == old(self._inserted_elements)")]}})
+
+contract("probables.utilities.get_x_bits", kind="function", properties=["C03", "C15"],
+         params={"num": "int", "max_bits": "int", "num_bits": "int", "right_bits": "bool"}, returns="int",
+         requires=[("bit_counts", "0 <= num_bits <= max_bits")], modifies=[],
+         ensures=[("low_bits", "implies(right_bits, result == num % 2 ** num_bits)"),
+                  ("in_range", "implies(right_bits, 0 <= result < 2 ** num_bits)")])
+
+contract("CuckooFilter._generate_fingerprint_info", contexts=["CuckooFilter"], properties=["C03", "C15"],
+         params={"key": "key"}, returns="tuple[int,int,int]",
+         requires=[("capacity_positive", f"{CAP} >= 1"), ("fingerprint_bits", "0 <= self._fingerprint_size <= 64")],
+         modifies=[],
+         ensures=[("fingerprint", "result[2] == ck_fp(self, key)"),
+                  ("first_candidate", f"result[0] == result[2] % {CAP}"),
+                  ("second_candidate", "result[1] == ck_alt(self, result[2])"),
+                  ("in_range", f"0 <= result[0] < {CAP} and 0 <= result[1] < {CAP} and result[2] >= 0")])
+
+_TCN = f"tcount({BK}, {CAP}, f)"
+_KEYREQ = [("inv", "inv_cuckoo(self)"), ("fingerprint_bits", "0 <= self._fingerprint_size <= 64"),
+           ("swaps_positive", "self._CuckooFilter__max_cuckoo_swaps >= 1"),
+           ("expansion_rate", "self._CuckooFilter__expansion_rate >= 1")]
+
+contract("CuckooFilter.check", contexts=["CuckooFilter"], properties=["C03", "C19"],
+         params={"key": "key"}, returns="bool", requires=_KEYREQ, modifies=[],
+         ensures=[("present_iff_fingerprint_stored", f"result == (tcount({BK}, {CAP}, ck_fp(self, key)) >= 1)")])
+
+contract("CuckooFilter.remove", contexts=["CuckooFilter"], properties=["C03", "C14", "C15"],
+         params={"key": "key"}, returns="bool", requires=_KEYREQ,
+         modifies=[BK, "self._inserted_elements"],
+         ensures=[("reports_whether_it_was_stored", f"result == (old(tcount({BK}, {CAP}, ck_fp(self, key))) >= 1)"),
+                  ("only_that_fingerprint_leaves",
+                   f"all({_TCN} == (0 if f == ck_fp(self, key) else old({_TCN})) for f in allkeys())"),
+                  ("inv_shape", "ck_shape(self)"), ("inv_placed", "ck_placed(self)"), ("inv_nodup", f"nodup({BK}, {CAP})"),
+                  ("inv_counter", f"self._inserted_elements == tsize({BK}, {CAP})"),
+                  ("capacity_kept", f"{CAP} == old({CAP})")])
+
+_RATE = "self._CuckooFilter__expansion_rate"
+_EXTRA = "(1 if (extra_fingerprint is not None and f == extra_fingerprint) else 0)"
+
+contract("CuckooFilter._setup_expand", contexts=["CuckooFilter"], properties=["C03", "C15", "C14"],
+         params={"extra_fingerprint": "opt[int]"}, returns="list[int]",
+         requires=[("shape", "ck_shape(self)"), ("expansion_rate", f"{_RATE} >= 1")],
+         modifies=[BK, CAP, "self._inserted_elements"], rebinds=[BK],
+         ensures=[("every_stored_fingerprint_and_the_extra_one_is_listed",
+                   f"all(lcount(result, 0, len(result), f) == old({_TCN}) + {_EXTRA} for f in allkeys())"),
+                  ("capacity_multiplied", f"{CAP} == old({CAP}) * {_RATE}"),
+                  ("fresh_empty_table", f"len({BK}) == {CAP} and all(len({BK}[b]) == 0 for b in range(0, {CAP})) and "
+                                        f"all({_TCN} == 0 for f in allkeys()) and tsize({BK}, {CAP}) == 0 and "
+                                        "self._inserted_elements == 0")],
+         loops={0: {"invariant": [("collected", f"all(lcount(fingerprints, 0, len(fingerprints), f) == tcount({BK}, _i, f) + {_EXTRA} "
+                                                "for f in allkeys())")]},
+                1: {"invariant": [("empty_prefix", f"len({BK}) == _i and all(len({BK}[b]) == 0 for b in range(0, _i)) and "
+                                                   f"all(tcount({BK}, _i, f) == 0 for f in allkeys()) and tsize({BK}, _i) == 0")]}})
+
+_NOT_LOST = f"all({_TCN} >= old({_TCN}) for f in allkeys())"
+_FULL_ERR = {"CuckooFilterFullError": {"when": "True", "must": False, "state": "unchanged",
+                                       "ensures": [("every_fingerprint_present_before_is_still_present", _NOT_LOST)]}}
+
+contract("CuckooFilter._expand_logic", contexts=["CuckooFilter"], properties=["C03", "C15", "C14"],
+         params={"extra_fingerprint": "opt[int]"},
+         requires=[("inv", "inv_cuckoo(self)"), ("expansion_rate", f"{_RATE} >= 1"),
+                   ("swaps_positive", "self._CuckooFilter__max_cuckoo_swaps >= 1"),
+                   ("extra_not_stored", f"extra_fingerprint is None or tcount({BK}, {CAP}, extra_fingerprint) == 0")],
+         raises=_FULL_ERR,
+         modifies=[BK, CAP, "self._inserted_elements"],
+         ensures=[("same_fingerprints_plus_the_extra_one", f"all({_TCN} == old({_TCN}) + {_EXTRA} for f in allkeys())"),
+                  ("capacity_multiplied", f"{CAP} == old({CAP}) * {_RATE}"),
+                  ("inv_shape", "ck_shape(self)"), ("inv_placed", "ck_placed(self)"), ("inv_nodup", f"nodup({BK}, {CAP})"),
+                  ("inv_counter", f"self._inserted_elements == tsize({BK}, {CAP})")],
+         loops={0: {"invariant": [
+             ("shape", "ck_shape(self)"), ("placed", "ck_placed(self)"), ("nodup", f"nodup({BK}, {CAP})"),
+             ("counter", f"self._inserted_elements == tsize({BK}, {CAP})"),
+             ("capacity", f"{CAP} == old({CAP}) * {_RATE}"),
+             ("conservation", f"all({_TCN} + lcount(fingerprints, _i, len(fingerprints), f) == old({_TCN}) + {_EXTRA} "
+                              "for f in allkeys())")]}})
+
+contract("CuckooFilter.expand", contexts=["CuckooFilter"], properties=["C03", "C15", "C14"],
+         requires=[("inv", "inv_cuckoo(self)"), ("expansion_rate", f"{_RATE} >= 1"),
+                   ("swaps_positive", "self._CuckooFilter__max_cuckoo_swaps >= 1")],
+         raises=_FULL_ERR, modifies=[BK, CAP, "self._inserted_elements"],
+         ensures=[("same_fingerprints", f"all({_TCN} == old({_TCN}) for f in allkeys())"),
+                  ("capacity_multiplied", f"{CAP} == old({CAP}) * {_RATE}"),
+                  ("inv_shape", "ck_shape(self)"), ("inv_placed", "ck_placed(self)"), ("inv_nodup", f"nodup({BK}, {CAP})"),
+                  ("inv_counter", f"self._inserted_elements == tsize({BK}, {CAP})")])
+
+_FULL_ERR_DEAL = {"CuckooFilterFullError": dict(_FULL_ERR["CuckooFilterFullError"], when="finger is not None")}
+
+contract("CuckooFilter._deal_with_insertion", contexts=["CuckooFilter"], properties=["C03", "C15", "C14"],
+         params={"finger": "opt[int]"},
+         requires=[("inv", "inv_cuckoo(self)"), ("expansion_rate", f"{_RATE} >= 1"),
+                   ("swaps_positive", "self._CuckooFilter__max_cuckoo_swaps >= 1"),
+                   ("left_over_not_stored", f"finger is None or tcount({BK}, {CAP}, finger) == 0")],
+         raises=_FULL_ERR_DEAL, modifies=[BK, CAP, "self._inserted_elements"],
+         ensures=[("left_over_is_stored_again",
+                   f"all({_TCN} == old({_TCN}) + (1 if (finger is not None and f == finger) else 0) for f in allkeys())"),
+                  ("inv_shape", "ck_shape(self)"), ("inv_placed", "ck_placed(self)"), ("inv_nodup", f"nodup({BK}, {CAP})"),
+                  ("inv_counter", f"self._inserted_elements == tsize({BK}, {CAP})")])
+
+contract("CuckooFilter.add", contexts=["CuckooFilter"], properties=["C03", "C15", "C14"],
+         params={"key": "key"}, requires=_KEYREQ, raises=_FULL_ERR,
+         modifies=[BK, CAP, "self._inserted_elements"],
+         ensures=[("key_present_nothing_else_changes",
+                   f"all({_TCN} == (1 if f == ck_fp(self, key) else old({_TCN})) for f in allkeys())"),
+                  ("inv_shape", "ck_shape(self)"), ("inv_placed", "ck_placed(self)"), ("inv_nodup", f"nodup({BK}, {CAP})"),
+                  ("inv_counter", f"self._inserted_elements == tsize({BK}, {CAP})")])
